@@ -197,6 +197,9 @@ def build(raw, sid, route='back', poison=None, observe=True):
             steps.append({"op": "poison", "acc": poison})
     for e in raw['evs']:
         steps.append(ev_step(e))
+        if e['op'] in ('extend', 'from_iter'):
+            # what the user's iterator claims through size_hint(): nothing, exact, a lower bound, too generous upper bounds
+            steps[-1]['hint'] = [0, 1, 2, 3, n + 3, 2 * n + 2][(sum(map(ord, sid)) + len(steps)) % 6]
     last = raw['evs'][-1]['op']
     alive = last not in ('drop_buf',) and not ('ctor' in tags and raw['evs'][-1]['unw']) and raw['evs'][0]['op'] != 'into_iter'
     if raw['evs'][0]['op'] in ('clone', 'clone_from') and not raw['evs'][0]['unw']:
@@ -502,6 +505,8 @@ def random_history(rnd, n, sid, length, faults):
                 st["j"] = idx()
             elif op in ("fill_with", "fill_spare_with", "extend", "extend_from_slice", "eq_slice"):
                 st["vals"] = [rnd.randint(0, 2) for _ in range(rnd.randint(0, min(2 * n + 1, 12)))] or ([1] if op.startswith("fill") else [])
+                if op == "extend":
+                    st["hint"] = rnd.choice([0, 1, 2, 3, n + 3, 2 * n + 2])
                 if op == "eq_slice":
                     st["acc"] = rnd.choice(SLICE_FORMS)
             elif op == "write_via":
